@@ -642,7 +642,7 @@ for _n in (1, 2, 3):
         if _n == 3 and _ak != "time":
             continue
         s, c, p = _common_indices(_n, _ak)
-        bounded_obligation("verif.data.Data._get_common_indices#BOUNDED:N=%d,%s" % (_n, _ak), ("C02", "C03", "C01"), s, c, p,
+        bounded_obligation("verif.data.Data._get_common_indices#BOUNDED:N=%d,%s" % (_n, _ak), ("C02", "C03", "C01", "C14"), s, c, p,
                            bound="%d input(s), coordinate vectors of length 1..3 each (lengths varied independently), values from {0,1,2,3,NaN}, "
                                  "optional user list from {0,1,2,5}: exhaustive where the grid is below the budget, seeded random sample beyond" % _n,
                            sizes=(1, 2, 3), budget=30000, thorough_budget=400000, vary_axes=True,
